@@ -177,7 +177,7 @@ def harness(cfgk, rel, can_view, outk, raises, guard, constk, p0state):
 
             def __call__(self, *a, **k):
                 ev.append(("kernel", a, k))
-                if raises:
+                if raises is True:
                     raise SymRaise(ExcInst(ValueError, ("kernel failed",)))
                 return op_out
 
@@ -198,6 +198,10 @@ def harness(cfgk, rel, can_view, outk, raises, guard, constk, p0state):
         def ctor(interp_, args, kwargs):
             x = args[0]
             if x is op_out and ("_creator" in kwargs):
+                if raises == "result":
+                    # contract of the constructor: it may refuse the result (an integer-valued result requested as a variable)
+                    ev.append(("ctor-refused", args, kwargs))
+                    raise SymRaise(ExcInst(ValueError, ("Integer-valued tensors must be treated as constants.",)))
                 t = new_tensor("result", x, base=kwargs.get("_base"), creator=kwargs.get("_creator"), const=Opaque("result flag"))
             else:
                 t = new_tensor(f"wrapped{len(made)}", x if isinstance(x, Arr) else Arr(f"asarray({x!r})"), const=True)
@@ -283,6 +287,20 @@ def harness(cfgk, rel, can_view, outk, raises, guard, constk, p0state):
             ctx.oblige(f"C08.op.locks_operands_before_kernel.{tag}", len(pre_locks) == len(expected_locked) and all(x is y for x, y in zip(pre_locks, expected_locked)) and all(not e_[2] for e_ in locks), **meta)
         else:
             ctx.oblige(f"C08.op.guard_off_no_locking.{tag}", not locks and not rels and not fins, **meta)
+        if raises == "result":
+            # the kernel ran, the constructor refused its output: same exception out, every lock taken for the operation released (once, and
+            # exactly the locked set), no finalizer left behind, the operands' family links / view children / flags as before
+            ctx.oblige(f"C13.op.refused_result.exception_propagates.{tag}", raised is not None and raised.cls is ValueError and len(kernel) == 1, **meta)
+            if guard:
+                ctx.oblige(f"C08.op.failed_op_releases_exactly_what_it_locked.refused_result.{tag}", len(rels) == 1 and len(rels[0][1]) == len(expected_locked) and all(x is y for x, y in zip(rels[0][1], expected_locked)) and not fins
+                           and len(locks) == len(expected_locked), **meta)
+            same = True
+            for t in (p0, B) + ((p1,) if p1 is not None else ()):
+                f0, ops0, vc0 = snap[id(t)]
+                keep = [k_ for k_ in f0 if k_ not in ("_grad", "_view_grad", "_ops") and not (k_ == "_base" and t is p0 and p0state == "stale_view")]
+                same = same and all(t.fields.get(k_) is f0[k_] for k_ in keep) and list(interp.iterate_concrete(t.fields["_view_children"])) == vc0
+            ctx.oblige(f"C13.op.refused_result.no_trace_on_operands.{tag}", same, **meta)
+            return
         if raises:
             ctx.oblige(f"C13.op.exception_propagates.{tag}", raised is not None and raised.cls is ValueError, **meta)
             if guard:
@@ -384,11 +402,13 @@ def obligations(tier="quick"):
         for rel in RELS:
             for can_view in (True, False):
                 for outk in ("none", "array", "view"):
-                    for raises in (False, True):
+                    for raises in (False, True, "result"):
                         for guard in (True, False):
                             for constk in ("none", "true", "false"):
                                 for p0state in P0_STATES:
-                                    if raises and (rel != "fresh" or constk != "none"):
+                                    if raises is True and (rel != "fresh" or constk != "none"):
+                                        continue
+                                    if raises == "result" and (constk != "false" or rel not in ("fresh", "view_p0") or outk != "none"):
                                         continue
                                     if not guard and (constk != "none" or raises):
                                         continue
